@@ -16,18 +16,20 @@ from __future__ import annotations
 ID = 'PB'
 LEVEL = 'proof'
 BY_PROPERTY = {
-    'C02': ('Mahotas.Proofs.PyBodyTiesC02',
-            ['Mahotas.pybody_morph_open_eq_model', 'Mahotas.pybody_morph_close_eq_model',
-             'Mahotas.pybody_morph_cerode_eq_model', 'Mahotas.pybody_morph_cdilate_eq_model',
-             'Mahotas.pybody_morph_tophat_open_eq_model', 'Mahotas.pybody_morph_tophat_close_eq_model',
-             'Mahotas.pybody_c02Prims_consistent']),
-    'C16': ('Mahotas.Proofs.PyBodyTiesC16', ['Mahotas.pybody_thresholding_gbernsen_eq_model',
-                                             'Mahotas.pybody_thresholding_otsu_eq_model']),
-    'C06': ('Mahotas.Proofs.PyBodyTiesC06', ['Mahotas.pybody_convolve_gaussian_filter1d_eq_model',
-                                             'Mahotas.pybody_convolve_laplacian_2D_eq_model']),
+    'C02': [('Mahotas.Proofs.PyBodyTiesC02',
+             ['Mahotas.pybody_morph_open_eq_model', 'Mahotas.pybody_morph_close_eq_model',
+              'Mahotas.pybody_morph_cerode_eq_model', 'Mahotas.pybody_morph_cdilate_eq_model',
+              'Mahotas.pybody_morph_tophat_open_eq_model', 'Mahotas.pybody_morph_tophat_close_eq_model',
+              'Mahotas.pybody_c02Prims_consistent'])],
+    'C16': [('Mahotas.Proofs.PyBodyTiesC16', ['Mahotas.pybody_thresholding_gbernsen_eq_model',
+                                              'Mahotas.pybody_thresholding_otsu_eq_model']),
+            ('Mahotas.Proofs.PyBodyTiesC16Rc', ['Mahotas.pybody_thresholding_rc_eq_model', 'Mahotas.pybody_rc_guard',
+                                                'Mahotas.pybody_rc_maxt'])],
+    'C06': [('Mahotas.Proofs.PyBodyTiesC06', ['Mahotas.pybody_convolve_gaussian_filter1d_eq_model',
+                                              'Mahotas.pybody_convolve_laplacian_2D_eq_model'])],
 }
-LEAN_TARGETS = [m for m, _ in BY_PROPERTY.values()]
-THEOREMS = {m: list(t) for m, t in BY_PROPERTY.values()}
+LEAN_TARGETS = [m for v in BY_PROPERTY.values() for m, _ in v]
+THEOREMS = {m: list(t) for v in BY_PROPERTY.values() for m, t in v}
 RULE = 'no cases of its own: the ties are theorems re-checked against the regenerated definitions on every run'
 ASSUMPTIONS = ['value-level semantics: destination buffers (out=/output=), .copy() and the guard helpers are not part of the '
                'generated definitions (C09 and translator/guards.py cover them)']
@@ -36,10 +38,8 @@ TRUSTED = ['translator/pybody.py (meaning given to the Python subset; reviewed p
 
 def for_property(pid: str) -> dict:
     """the tie file and theorems a property's model rests on (nothing for a property without translated bodies)"""
-    if pid not in BY_PROPERTY:
-        return dict(LEAN_TARGETS=[], THEOREMS={})
-    m, t = BY_PROPERTY[pid]
-    return dict(LEAN_TARGETS=[m], THEOREMS={m: list(t)})
+    mods = BY_PROPERTY.get(pid, [])
+    return dict(LEAN_TARGETS=[m for m, _ in mods], THEOREMS={m: list(t) for m, t in mods})
 
 
 def cases(rng, tier):
